@@ -7,6 +7,8 @@ R7.4  tag grouping agreement between EndpointsEmitter.emit and ClientVisitor.vis
       same default tag, same canonical-spelling score, same class/module derivation)
 R7.6  str-enum options (NamingStrategy, HTTPMethod) are compared by value, never by identity: the strategy selected as a plain
       string is honoured
+R7.8  every member of HTTPMethod passes the path-item key filter of parse_operations (skip tests evaluated per member)
+R7.9  CLEAN strategy: the path-derived suffix compared with the lower-cased id is itself case-folded (string-shape interpretation)
 R7.7  the tag grouping key is at least as coarse as the module / class names derived from a tag (no two groups share a file)
 R7.5  no filter between grouping and emission: every operation of a tag is visited, every tag yields a file, a
       class entry and an APIClient property
@@ -144,6 +146,8 @@ def run(repo: Repo, rep: Report, tier: str) -> None:
                       "'café' / 'caf', 'Data.Sources' / 'DataSources') form two groups with one module name - the second file overwrites the first and its "
                       "operations are silently lost", ns.methods["normalize_tag_key"].loc())
 
+    rule_case_agreement(repo, rep, "R7.9")
+    rule_method_filter_total(repo, rep, "R7.8")
     # ---------------------------------------------------------------- R7.3
     _dedup_site(repo.func("emitters.endpoints_emitter:EndpointsEmitter._deduplicate_operation_ids_globally"), "operation methods", "seen_methods", _Relabel(rep, "R7.3"))
     emit = repo.func("emitters.endpoints_emitter:EndpointsEmitter.emit")
@@ -254,3 +258,170 @@ class _Relabel:
 
     def error(self, *a, **k):
         self.rep.error(*a, **k)
+
+
+# ------------------------------------------------------------------------------------------------ R7.9 case agreement of the CLEAN suffix test
+def rule_case_agreement(repo: Repo, rep, rule: str = "R7.9") -> None:
+    """`clean_auto_generated_operation_id` recognises FastAPI ids by comparing the *lower-cased* id against a suffix derived from the path.
+    The suffix must be case-folded as well: its string shape (computed from an arbitrary path) may not contain upper-case letters -
+    otherwise ids on paths with a camelCase segment are silently left uncleaned under the CLEAN strategy."""
+    from sa.strshape import Interp, Unsupported
+    from sa.match import Locals as _L, clone
+
+    ns = repo.module("core.utils").classes.get("NameSanitizer")
+    fn = ns.methods.get("clean_auto_generated_operation_id") if ns is not None else None
+    if fn is None:
+        raise AnalysisError("anchor vanished: NameSanitizer.clean_auto_generated_operation_id")
+    L = _L(fn.node)
+    sites = []
+    for c in calls_in(fn.node):
+        if isinstance(c.func, ast.Attribute) and c.func.attr in ("endswith", "startswith") and len(c.args) == 1:
+            recv = L.inline(c.func.value, stop=tuple(L.params))
+            if isinstance(recv, ast.Call) and isinstance(recv.func, ast.Attribute) and recv.func.attr in ("lower", "casefold"):
+                sites.append((c, c.args[0]))
+    rep.count(f"{rule}:folded_comparisons", len(sites))
+    rep.require(len(sites) >= 1, f"{rule}: no comparison of a lower-cased id against a derived suffix found in clean_auto_generated_operation_id (anchor)")
+    top = list(fn.node.body)  # type: ignore[attr-defined]
+    for c, other in sites:
+        # backward slice over the top-level assignments the compared value depends on
+        need = {x.id for x in ast.walk(other) if isinstance(x, ast.Name)}
+        keep: List[ast.stmt] = []
+        for st in reversed(top):
+            if isinstance(st, (ast.Assign, ast.AnnAssign)) and st.value is not None:
+                tg = st.targets[0] if isinstance(st, ast.Assign) else st.target
+                if isinstance(tg, ast.Name) and tg.id in need:
+                    keep.append(st)
+                    need |= {x.id for x in ast.walk(st.value) if isinstance(x, ast.Name)}
+        keep.reverse()
+        params = [p for p in fn.params if p in need]
+        sub = f"core/utils.py:NameSanitizer.clean_auto_generated_operation_id `{norm(c)[:60]}`"
+        if len(params) != 1:
+            rep.error(f"{rule}: cannot evaluate the compared suffix `{norm(other)[:40]}` (it depends on parameters {params})")
+            continue
+        synth = ast.FunctionDef(name="_slice", args=ast.arguments(posonlyargs=[], args=[ast.arg(arg=params[0])], kwonlyargs=[], kw_defaults=[], defaults=[]),
+                                body=[clone(s) for s in keep] + [ast.Return(value=clone(other))], decorator_list=[], type_params=[])
+        ast.fix_missing_locations(synth)
+        it = Interp(synth, params[0])
+        try:
+            it.run()
+        except Unsupported as e:
+            rep.error(f"{rule}: cannot evaluate the compared suffix: the string-shape interpreter does not model {e}")
+            continue
+        chars = set()
+        for v, _, _ in it.returns:
+            chars |= set(v.chars)
+        if "U" in chars:
+            rep.violation(rule, sub, f"{fn.fq}|case-disagreement|suffix-keeps-uppercase",
+                          f"the id is lower-cased before the test but the value it is compared with (`{norm(other)[:40]}`, derived from `{params[0]}`) can contain upper-case "
+                          "letters: for `/userProfiles` the suffix `_userProfiles` never matches `..._userprofiles` and the operation keeps its long auto-generated name", fn.loc(c))
+        else:
+            rep.ok(rule, sub, f"both sides are case-folded (characters that can occur in the derived suffix: {sorted(chars)})", fn.loc(c))
+
+
+# ------------------------------------------------------------------------------------------------ R7.8 every HTTP method key reaches the parser
+def rule_method_filter_total(repo: Repo, rep, rule: str = "R7.8") -> None:
+    """The path-item loop of parse_operations skips keys that are not operations.  Every member of `HTTPMethod` (the methods the IR can
+    represent, `trace` included) must pass every skip test on the way to `HTTPMethod[<key>]`: the tests are evaluated for each member
+    name by a small evaluator over string sets (constants, set displays, module-level set constants, `HTTPMethod.__members__`,
+    `.lower()/.upper()`, `in / not in`, `and / or / not`)."""
+    from sa.cfg import CFG, guards
+    from sa.match import Locals as _L
+
+    po = repo.func("core.loader.operations.parser:parse_operations")
+    enum_cls = None
+    for m in repo.modules.values():
+        if "HTTPMethod" in m.classes:
+            enum_cls = m.classes["HTTPMethod"]
+    if enum_cls is None:
+        raise AnalysisError("anchor vanished: enum HTTPMethod")
+    members = [t.id for st in enum_cls.node.body if isinstance(st, ast.Assign) for t in st.targets if isinstance(t, ast.Name)]
+    rep.require(len(members) >= 7, f"{rule}: only {len(members)} HTTPMethod members found (floor 7)")
+    L = _L(po.node)
+    cfg = CFG(po.node)
+    dom = cfg.dominators()
+    uses = [n for n in cfg.nodes if n.kind == "stmt" and n.ast is not None and not n.copy and any(
+        isinstance(x, ast.Subscript) and dotted(x.value) == "HTTPMethod" for x in ast.walk(n.ast))]
+    rep.require(len(uses) >= 1, f"{rule}: no `HTTPMethod[<key>]` lookup found in parse_operations (anchor)")
+    if not uses:
+        return
+    use = uses[0]
+    sub_e = next(x for x in ast.walk(use.ast) if isinstance(x, ast.Subscript) and dotted(x.value) == "HTTPMethod")
+    key_e = L.inline(sub_e.slice)
+    roots = [x.id for x in ast.walk(key_e) if isinstance(x, ast.Name) and any(k.startswith("for") for k, _, _ in L.defs.get(x.id, []))]
+    if len(roots) != 1:
+        rep.error(f"{rule}: cannot identify the loop variable the method key `{norm(sub_e.slice)}` derives from")
+        return
+    var = roots[0]
+    mod_consts = {}
+    for st in po.module.tree.body:
+        if isinstance(st, (ast.Assign, ast.AnnAssign)) and st.value is not None:
+            tg = st.targets[0] if isinstance(st, ast.Assign) else st.target
+            if isinstance(tg, ast.Name):
+                mod_consts[tg.id] = st.value
+
+    class _Cannot(Exception):
+        pass
+
+    def ev(e: ast.AST, val: str):
+        if isinstance(e, ast.Constant):
+            return e.value
+        if isinstance(e, ast.Name):
+            if e.id == var:
+                return val
+            ds = L.defs.get(e.id, [])
+            if len(ds) == 1 and ds[0][1] is not None and ds[0][0] == "assign":
+                return ev(ds[0][1], val)
+            if e.id in mod_consts:
+                return ev(mod_consts[e.id], val)
+            raise _Cannot(norm(e))
+        if isinstance(e, (ast.Set, ast.List, ast.Tuple)):
+            return {ev(x, val) for x in e.elts}
+        if isinstance(e, ast.Call) and isinstance(e.func, ast.Name) and e.func.id in ("frozenset", "set", "tuple", "list") and len(e.args) == 1:
+            return set(ev(e.args[0], val))
+        if isinstance(e, ast.Call) and isinstance(e.func, ast.Attribute) and e.func.attr in ("lower", "upper", "strip", "casefold") and not e.args:
+            r = ev(e.func.value, val)
+            return getattr(r, e.func.attr if e.func.attr != "casefold" else "lower")() if isinstance(r, str) else r
+        if isinstance(e, ast.Attribute) and e.attr == "__members__" and dotted(e.value) == "HTTPMethod":
+            return set(members)
+        if isinstance(e, ast.UnaryOp) and isinstance(e.op, ast.Not):
+            return not ev(e.operand, val)
+        if isinstance(e, ast.BoolOp):
+            vals = [ev(v, val) for v in e.values]
+            return all(vals) if isinstance(e.op, ast.And) else any(vals)
+        if isinstance(e, ast.Compare) and len(e.ops) == 1:
+            a, b = ev(e.left, val), ev(e.comparators[0], val)
+            op = e.ops[0]
+            if isinstance(op, ast.In):
+                return a in b
+            if isinstance(op, ast.NotIn):
+                return a not in b
+            if isinstance(op, ast.Eq):
+                return a == b
+            if isinstance(op, ast.NotEq):
+                return a != b
+        if isinstance(e, ast.Call) and isinstance(e.func, ast.Attribute) and e.func.attr == "startswith" and len(e.args) == 1:
+            return str(ev(e.func.value, val)).startswith(str(ev(e.args[0], val)))
+        raise _Cannot(norm(e)[:60])
+
+    gs = [(g, pol) for g, pol in guards(cfg, use.id, dom) if g.kind == "test" and pol is not None and any(
+        isinstance(x, ast.Name) and (x.id == var or var in {y.id for y in ast.walk(L.inline(x)) if isinstance(y, ast.Name)}) for x in ast.walk(g.ast))]
+    rep.count(f"{rule}:filter_tests", [norm(g.ast)[:60] for g, _ in gs])
+    rep.require(len(gs) >= 1, f"{rule}: no skip test on the path-item key dominates the HTTPMethod lookup (anchor)")
+    dropped = {}
+    for mname in members:
+        key = mname.lower()
+        for g, pol in gs:
+            try:
+                r = bool(ev(g.ast, key))
+            except _Cannot as e:
+                rep.error(f"{rule}: cannot evaluate the skip test `{norm(g.ast)[:60]}` ({e})")
+                return
+            if r != pol:
+                dropped.setdefault(key, norm(g.ast)[:70])
+    sub = f"{po.module.relpath}:parse_operations path-item key filter"
+    if dropped:
+        rep.violation(rule, sub, f"{po.fq}|method-filter-drops|{sorted(dropped)}",
+                      f"the operation under the path-item field(s) {sorted(dropped)} never reaches the parser (`{list(dropped.values())[0]}`): it is skipped without warning "
+                      "or error, its method is missing on the tag client and a tag used only by such operations loses its module", po.loc(use.ast))
+    else:
+        rep.ok(rule, sub, f"all {len(members)} HTTPMethod members ({', '.join(x.lower() for x in members)}) pass the {len(gs)} skip test(s)", po.loc(use.ast))
